@@ -2,6 +2,7 @@ package interpreter
 
 import (
 	"github.com/libsv/go-bt/v2/bscript"
+	"github.com/libsv/go-bt/v2/bscript/interpreter/scriptflag"
 )
 
 func vcopy(b []byte) []byte { return append([]byte{}, b...) }
@@ -159,4 +160,102 @@ func VH_C08_Alias() {
 		vassert(vbytesEq(script, scriptGhost), "script bytes unchanged")
 	}
 	vreach("alias-checked")
+}
+
+var vC08Transformers = []byte{bscript.OpCAT, bscript.OpINVERT, bscript.OpAND, bscript.OpOR, bscript.OpXOR, bscript.OpNUM2BIN, bscript.OpBIN2NUM,
+	bscript.OpLSHIFT, bscript.OpRSHIFT, bscript.Op1ADD, bscript.OpSPLIT}
+
+// vtransformTop applies one transforming opcode to the top item, supplying fresh further operands.
+func vtransformTop(th *thread, tag string) error {
+	op := vC08Transformers[vnondetLen(tag+"-op", 0, len(vC08Transformers)-1)]
+	top := th.dstack.stk[len(th.dstack.stk)-1]
+	switch op {
+	case bscript.OpCAT:
+		th.dstack.stk = append(th.dstack.stk, vnondetBytes(tag+"-suffix", 1, 1))
+	case bscript.OpAND, bscript.OpOR, bscript.OpXOR:
+		th.dstack.stk = append(th.dstack.stk, vnondetBytes(tag+"-mask", len(top), len(top)))
+	case bscript.OpNUM2BIN:
+		th.dstack.stk = append(th.dstack.stk, []byte{byte(len(top) + 1)})
+	case bscript.OpLSHIFT, bscript.OpRSHIFT:
+		th.dstack.stk = append(th.dstack.stk, []byte{[]byte{1, 9}[vnondetLen(tag+"-shift", 0, 1)]})
+	case bscript.OpSPLIT:
+		th.dstack.stk = append(th.dstack.stk, []byte{byte(vnondetLen(tag+"-at", 1, 1))})
+	}
+	err := vexec(th, op)
+	if err == nil && op == bscript.OpSPLIT {
+		err = vexec(th, bscript.OpDROP) // keep the left piece
+	}
+	return err
+}
+
+// C08-A2: two transformations in a row on two copies of one item. The item comes from an
+// opcode that may leave spare capacity behind its result (concatenation, arithmetic, NUM2BIN,
+// a split piece, or a plain push); it is duplicated, the first copy is transformed, then the
+// second: the first result must still have the value it had, and so must everything below.
+// (A transformer that builds its result by appending into its operand's storage is invisible
+// to a single step: only the second append overwrites what the first produced.)
+func VH_C08_Twice() {
+	vunwindCut(vparam("U", 6))
+	var flags scriptflag.Flag
+	if vnondetBool("after-genesis") {
+		flags = scriptflag.UTXOAfterGenesis
+	}
+	th := &thread{flags: flags, cfg: &beforeGenesisConfig{}, elseStack: &nopBoolStack{}, debug: &nopDebugger{}, state: &nopStateHandler{}}
+	if flags&(1<<14) != 0 { // UTXOAfterGenesis
+		th.elseStack = &stack{debug: &nopDebugger{}, sh: &nopStateHandler{}}
+		th.afterGenesis = true
+		th.cfg = &afterGenesisConfig{}
+	}
+	th.scriptParser = &DefaultOpcodeParser{ErrorOnCheckSig: true}
+	th.dstack = newStack(th.cfg, false)
+	th.astack = newStack(th.cfg, false)
+	th.scripts = []ParsedScript{{}, {}}
+	th.scriptIdx = 1
+	below := vnondetBytes("below", 1, 1)
+	th.dstack.stk = [][]byte{below}
+	var perr error
+	switch vnondetLen("source", 0, 4) {
+	case 0: // a concatenation result
+		th.dstack.stk = append(th.dstack.stk, vnondetBytes("p", 2, 2), vnondetBytes("q", 1, 1))
+		perr = vexec(th, bscript.OpCAT)
+	case 1: // an arithmetic result
+		th.dstack.stk = append(th.dstack.stk, vnondetBytes("a", 1, 1), vnondetBytes("b", 1, 1))
+		perr = vexec(th, bscript.OpADD)
+	case 2: // a NUM2BIN result
+		th.dstack.stk = append(th.dstack.stk, vnondetBytes("n", 1, 1), []byte{4})
+		perr = vexec(th, bscript.OpNUM2BIN)
+	case 3: // the right piece of a split
+		th.dstack.stk = append(th.dstack.stk, vnondetBytes("s", 4, 4), []byte{1})
+		perr = vexec(th, bscript.OpSPLIT)
+		if perr == nil {
+			perr = vexec(th, bscript.OpNIP)
+		}
+	case 4: // pushed straight from the script
+		script := append(bscript.Script{3}, vnondetBytes("pushed", 3, 3)...)
+		script = append(script, bscript.OpNOP, bscript.OpNOP, bscript.OpNOP)
+		ps, err := th.scriptParser.Parse(&script)
+		vassume(err == nil)
+		th.scripts[1] = ps
+		_, perr = th.Step()
+	}
+	vassume(perr == nil && len(th.dstack.stk) == 2 && len(th.dstack.stk[1]) > 0)
+	if vnondetBool("via-altstack") {
+		// [below x] -> DUP TOALTSTACK ... FROMALTSTACK
+		vassume(vexec(th, bscript.OpDUP) == nil && vexec(th, bscript.OpTOALTSTACK) == nil)
+		vassume(vtransformTop(th, "t1") == nil)
+		vassume(vexec(th, bscript.OpFROMALTSTACK) == nil)
+	} else {
+		vassume(vexec(th, bscript.OpDUP) == nil)
+		vassume(vtransformTop(th, "t1") == nil)
+		vassume(vexec(th, bscript.OpSWAP) == nil)
+	}
+	// [below r1 x]
+	vassume(len(th.dstack.stk) == 3)
+	ghostR1 := vcopy(th.dstack.stk[1])
+	ghostBelow := vcopy(th.dstack.stk[0])
+	vassume(vtransformTop(th, "t2") == nil)
+	vassume(len(th.dstack.stk) == 3)
+	vassert(vbytesEq(th.dstack.stk[1], ghostR1), "C08: the result of the first transformation keeps its value when the other copy is transformed")
+	vassert(vbytesEq(th.dstack.stk[0], ghostBelow), "C08: the item below keeps its value through both transformations")
+	vreach("twice-checked")
 }
